@@ -9,9 +9,15 @@ stages:  hiergen/*   TLC enumerates design descriptions (hierarchy shapes x clas
                      each is rendered with real amaranth Modules, converted with back.rtlil.convert, parsed, and the
                      document judged by TLC against RtlilWF (code -> spec).
          random      seeded bigger designs (deeper trees, partial drivers, If/Switch trees, arithmetic, memories).
+         corner      a few hand-picked legal designs (one signal twice in the ports list, swapped port names, a signal
+                     named like a synthesized port, zero-width slices/registers in a submodule, partially driven port).
          binding     doctored documents and texts must be rejected with the expected clause; HierGen mutant.
 Verdicts: a design that converts must give a text the reader accepts and RtlilWF accepts; a design of the generator
-(legal by construction) on which convert raises is a violation too ("whatever design is converted")."""
+(legal by construction) on which convert raises is a violation too ("whatever design is converted").
+Violation keys: {"clause": "convert_raises", "error": <exception type>, "where": "<file>:<function>" (innermost amaranth
+frame), "source", "names": [signal names in order], "design"} | {"clause": "Parses", "source", "error"} |
+{"clause": <RtlilWF clause>, "detail": <witness code>, "module", "source", "design"}; per class the (up to 4 / 3) smallest
+designs are reported, the number of designs in the class is in coverage.convert_raises / coverage.rejected."""
 import copy
 import json
 import os
@@ -41,6 +47,7 @@ def _t(ctx, what, t0):
 # HierGen configurations (TLA+ constant definitions; see spec/HierGen.tla)
 # ------------------------------------------------------------------------------------------------------------------
 CLASH = '{"a", "a$1", "a$2", "a$3", "b", ""}'
+CLASH_Q = '{"a", "a$1", "a$3", "b", ""}'
 ALLK = '{"none", "alias", "not", "sync"}'
 EXTRA_KINDS = '{"mem", "memsync", "inst", "iobi", "iobo", "iobt", "iobio", "empty", "empty2", "print", "formal"}'
 
@@ -52,13 +59,14 @@ BASE = dict(Shapes='{"top"}', SubNameSeqs='{<<"child", "a">>}', SinkOps="{TRUE}"
 def _configs(thorough):
     c = []
     # names: many same-module signals with clash-prone names, as inputs/ports, read in top
-    c.append(("names3", dict(Names=CLASH, MaxSigs=3, PortModes='{"no", "auto"}', RdMode='"top"' if thorough else '"top1"')))
+    c.append(("names3", dict(Names=CLASH if thorough else CLASH_Q, MaxSigs=3, PortModes='{"no", "auto"}', RdMode='"top"' if thorough else '"top1"')))
     c.append(("names4_noports", dict(Names='{"a", "a$3", "a$4", ""}', MaxSigs=4, PortModes='{"no"}', RdMode='"top1"')))
     # routing: one signal, every (driver module, kind) x (set of reading modules) x port mode, all shapes
     c.append(("route1", dict(Shapes='{"top", "child", "sibs", "chain"}',
                              SubNameSeqs='{<<"child", "a">>, <<"a", "">>}' if thorough else '{<<"child", "a">>}',
                              SinkOps="{TRUE, FALSE}" if thorough else "{TRUE}",
-                             Names='{"a", "child", ""}', Widths="{0, 2}", MaxSigs=1, Kinds=ALLK, RdMode='"any"',
+                             Names='{"a", "child", ""}' if thorough else '{"a", ""}', Widths="{0, 2}", MaxSigs=1, Kinds=ALLK,
+                             RdMode='"any"',
                              PortModes='{"no", "auto", "named"}' if thorough else '{"no", "auto"}')))
     # extras: memory / instance / buffers / empty submodules anywhere in the tree, names clashing with signals
     c.append(("extras1", dict(Shapes='{"top", "child", "chain"}', SubNameSeqs='{<<"child", "a">>}', Names='{"a"}', Widths="{2}",
@@ -69,7 +77,7 @@ def _configs(thorough):
         c.append(("names4", dict(Names=CLASH, MaxSigs=4, PortModes='{"no", "auto"}', RdMode='"top1"')))
         c.append(("names3_child", dict(Shapes='{"child"}', SubNameSeqs='{<<"a", "">>, <<"a$2", "">>}', Names='{"a", "a$2", "a$3", ""}',
                                        MaxSigs=3, Kinds='{"none"}', PortModes='{"no", "auto"}', RdMode='"one"')))
-        c.append(("route2", dict(Shapes='{"sibs", "chain"}', SubNameSeqs='{<<"child", "a">>}', SinkOps="{TRUE, FALSE}",
+        c.append(("route2", dict(Shapes='{"sibs", "chain"}', SubNameSeqs='{<<"child", "a">>}', SinkOps="{TRUE}",
                                  Names='{"a"}', Widths="{1}", MaxSigs=2, Kinds='{"none", "not", "sync"}', RdMode='"any"',
                                  PortModes='{"no", "auto"}')))
         c.append(("extras2", dict(Shapes='{"child", "sibs"}', SubNameSeqs='{<<"child", "a">>}', Names='{"a"}', Widths="{2}",
@@ -417,6 +425,91 @@ def build_random(seed, size):
 
 
 # ------------------------------------------------------------------------------------------------------------------
+# hand-picked corner designs (directed; each is legal amaranth)
+# ------------------------------------------------------------------------------------------------------------------
+def _corner_same_signal_twice_in_ports():
+    from amaranth.hdl import Module, Signal
+    m = Module()
+    a, o = Signal(2, name="a"), Signal(2, name="o")
+    m.d.comb += o.eq(~a)
+    return m, [a, a, o], []
+
+
+def _corner_one_signal_two_port_names():
+    from amaranth.hdl import Module, Signal
+    m = Module()
+    a, o = Signal(2, name="a"), Signal(2, name="o")
+    m.d.comb += o.eq(~a)
+    return m, [("x", a, None), ("y", a, None), o], []
+
+
+def _corner_port_names_swapped():
+    from amaranth.hdl import Module, Signal
+    m = Module()
+    m.submodules.c = c = Module()
+    a, o = Signal(2, name="a"), Signal(2, name="o")
+    c.d.comb += o.eq(~a)
+    return m, {"o": (a, None), "a": (o, None)}, []
+
+
+def _corner_signal_named_like_synthesized_port():
+    """the child reads s[0:2] + u; the sum reaches the parent through a port amaranth names port$2$0 -- and the user
+    signal u carries that very name"""
+    from amaranth.hdl import Module, Signal
+    m = Module()
+    m.submodules.c = c = Module()
+    a, s, u, o = Signal(2, name="a"), Signal(3, name="s"), Signal(1, name="port$2$0"), Signal(4, name="o")
+    m.d.comb += s.eq(a + 1)
+    c.d.comb += o.eq(s[0:2] + u)
+    return m, [a, u, o], []
+
+
+def _corner_zero_width_slice_assigned_under_if():
+    from amaranth.hdl import Module, Signal
+    m = Module()
+    m.submodules.child = c = Module()
+    s, a = Signal(2, name="s"), Signal(1, name="a")
+    with c.If(a):
+        c.d.comb += s[0:0].eq(1)
+    return m, [a], []
+
+
+def _corner_zero_width_register_in_child():
+    from amaranth.hdl import Module, Signal
+    m = Module()
+    m.submodules.child = c = Module()
+    z = Signal(0, name="z")
+    c.d.sync += z.eq(1)
+    return m, [], []
+
+
+def _corner_instance_drives_part_of_port():
+    from amaranth.hdl import Module, Signal, Instance
+    m = Module()
+    m.submodules.child = c = Module()
+    o, i = Signal(4, name="o"), Signal(2, name="i")
+    c.submodules.u = Instance("blk", i_I=i, o_O=o[1:3])
+    f = [["\\blk", [], [], [["\\I", "i", 2, []], ["\\O", "o", 2, []]]]]
+    return m, [i, o], f
+
+
+def _corner_everything_private():
+    from amaranth.hdl import Module, Signal
+    m = Module()
+    m.submodules += (c := Module())
+    a, b, o = Signal(2, name=""), Signal(2, name=""), Signal(3, name="")
+    c.d.sync += b.eq(a + 1)
+    m.d.comb += o.eq(b - a)
+    return m, [("p", a, None), ("q", o, None)], []
+
+
+CORNERS = {f.__name__[len("_corner_"):]: f for f in (
+    _corner_same_signal_twice_in_ports, _corner_one_signal_two_port_names, _corner_port_names_swapped,
+    _corner_signal_named_like_synthesized_port, _corner_zero_width_slice_assigned_under_if,
+    _corner_zero_width_register_in_child, _corner_instance_drives_part_of_port, _corner_everything_private)}
+
+
+# ------------------------------------------------------------------------------------------------------------------
 # design -> document
 # ------------------------------------------------------------------------------------------------------------------
 def _frame(tb):
@@ -452,7 +545,8 @@ def _pack(res):
 
 
 def _worker(job):
-    """("hier", config, dump path, lo, hi) | ("random", [(seed, size)...]) -> [(source, description, result)...]"""
+    """("hier", config, dump path, lo, hi) | ("random", [(seed, size)...]) | ("corner", [name...])
+    -> [(source, description, result)...]"""
     out = []
     if job[0] == "hier":
         _k, cfgname, path, lo, hi = job
@@ -464,12 +558,18 @@ def _worker(job):
             except Exception:
                 raise MachineryError("HierGen description could not be rendered (generator error, not amaranth's):\n%s\n%s"
                                      % (fp, traceback.format_exc()))
-            res = convert_and_parse(top, ports, foreign, emit_src=(len(fp) & 1) == 0)
+            d["emit_src"] = (len(fp) & 1) == 0
+            res = convert_and_parse(top, ports, foreign, emit_src=d["emit_src"])
             out.append(("hiergen/" + cfgname, d, _pack(res)))
+    elif job[0] == "corner":
+        for name in job[1]:
+            top, ports, foreign = CORNERS[name]()
+            out.append(("corner", {"corner": name, "emit_src": True}, _pack(convert_and_parse(top, ports, foreign))))
     else:
         for seed, size in job[1]:
             top, ports, foreign = build_random(seed, size)
-            out.append(("random", {"seed": seed, "size": size}, _pack(convert_and_parse(top, ports, foreign, emit_src=bool(seed & 1)))))
+            d = {"seed": seed, "size": size, "emit_src": bool(seed & 1)}
+            out.append(("random", d, _pack(convert_and_parse(top, ports, foreign, emit_src=d["emit_src"]))))
     return out
 
 
@@ -594,7 +694,8 @@ def _judge(ctx, entries, stage):
             ctx.violation(key, "rtlil.convert raises %s (%s) in %s on a legal design (%d such designs in this run: %s; smallest "
                                "shown): %s" % (err, res[3], where, len(lst), by_src, json.dumps(d)),
                           replay={"source": source, "design": d})
-    verdicts = validate_documents(ctx, docs, stage)
+    verdicts = validate_documents(ctx, docs, stage, batch_docs=800 if len(docs) < 20000 else 3000,
+                                  batch_bytes=1_500_000 if len(docs) < 20000 else 4_000_000)
     rejected = {}
     for (source, d), v in zip(owners, verdicts):
         nontrivial = v[0] == "REJ" or v[2] > 0
@@ -764,7 +865,6 @@ def _binding_demo(ctx):
     muts = [(dup_connect, "ExactlyOneDriver"), (drive_input, "ExactlyOneDriver"), (missing_wire, "RefsExist"),
             (widen, "WidthsAgree"), (port_gap, "PortIdsDense"), (drop_port, "SubmoduleCellsMatch"), (dup_name, "UniqueNames"),
             (out_of_bounds, "SlicesInBounds")]
-    muts += [(empty_module, "NoEmptyModules")]
     bad = [mut(good, f) for f, _ in muts]
     vs = validate_documents(ctx, [good] + bad, "binding-demo", count=False)
     if vs[0][0] != "ACC":
@@ -818,9 +918,10 @@ def run(ctx):
     for name, path, n in dumps:
         for lo, hi in expr_replay.split_dump(path, max(1, min(64, n // 40))):
             jobs.append(("hier", name, path, lo, hi))
-    n_rand = 3000 if th else 250
+    n_rand = 3000 if th else 200
     rjobs = [(ctx.rng.getrandbits(40), 6 if i % 3 else 3) for i in range(n_rand)]
     jobs += [("random", rjobs[i:i + 10]) for i in range(0, n_rand, 10)]
+    jobs.append(("corner", sorted(CORNERS)))
     parts = pmap(_worker, jobs)
     entries = [x for p in parts for x in p]
     for name, path, n in dumps:
@@ -832,7 +933,10 @@ def run(ctx):
     t0 = _t(ctx, "render+convert+parse (%d designs)" % len(entries), t0)
 
     # ---- judgement by RtlilWF ---------------------------------------------------------------------------------
-    docs, owners, verdicts = _judge(ctx, entries, "documents")
+    with ThreadPoolExecutor(1) as ex:
+        demo = ex.submit(_binding_demo, ctx)        # independent of the documents: runs beside the judgement
+        docs, owners, verdicts = _judge(ctx, entries, "documents")
+        demo.result()
     t0 = _t(ctx, "judge (%d documents)" % len(docs), t0)
     by_src = {}
     for (source, _d), v in zip(owners, verdicts):
@@ -851,10 +955,6 @@ def run(ctx):
             ctx.sample({"source": want, "design": _short(owners[i][1]), "verdict": list(verdicts[i]),
                         "modules": [m["name"] for m in json.loads(docs[i])["mods"]]})
 
-    # ---- binding: doctored documents must be rejected ---------------------------------------------------------
-    _binding_demo(ctx)
-    t0 = _t(ctx, "binding demo", t0)
-
     ctx.cov["exhaustive"] = False
     ctx.cov["rule"] = ("case = one design (a HierGen state rendered with amaranth, or a seeded random design) whose emitted "
                        "RTLIL was parsed and judged by RtlilWF; non-trivial = the document has at least one wire bit whose "
@@ -872,16 +972,22 @@ def replay(ctx, rep):
     d = r["design"]
     if r["source"].startswith("hiergen"):
         top, ports, foreign = build_hier(d)
+    elif r["source"] == "corner":
+        top, ports, foreign = CORNERS[d["corner"]]()
     else:
         top, ports, foreign = build_random(d["seed"], d["size"])
-    res = convert_and_parse(top, ports, foreign)
-    if res[0] != "doc":
-        print("replay:", res[:4] if res[0] == "convert_raises" else res[:2])
-        print("VIOLATION property=C07 replay=(same)")
-        return 1
-    v = validate_documents(ctx, [res[1]], "replay", count=False)[0]
-    print("replay verdict:", v)
-    if v[0] == "REJ":
-        print("VIOLATION property=C07 replay=(same)")
-        return 1
-    return 0
+    import shutil
+    res = convert_and_parse(top, ports, foreign, emit_src=d.get("emit_src", True))
+    try:
+        if res[0] != "doc":
+            print("replay:", res[:4] if res[0] == "convert_raises" else res[:2])
+            print("VIOLATION property=C07 replay=(same)")
+            return 1
+        v = validate_documents(ctx, [res[1]], "replay", count=False)[0]
+        print("replay verdict:", v)
+        if v[0] == "REJ":
+            print("VIOLATION property=C07 replay=(same)")
+            return 1
+        return 0
+    finally:
+        shutil.rmtree(ctx.tmp, ignore_errors=True)
